@@ -782,6 +782,50 @@ func runRand(c *mon.Case) {
 	_, st = doSeqs(c, rows, aa, o, true)
 	note("RemoveGapSeqs", o, st)
 
+	// f. the same object queried, edited in place at constant length, then cleaned: the decision is taken on the
+	// content at the time of the call (statistics remembered from an earlier call would be stale)
+	if len(rows) >= 2 && len(cols) >= 1 && r.Chance(0.5) {
+		o = cleanOpts{Maj: true, Ends: r.Bool(), IgnGaps: r.Bool(), IgnNs: r.Bool()}
+		a := h.MkAlign(rows, alphaOf(aa))
+		switch r.Intn(3) {
+		case 0:
+			a.MaxCharStats(o.IgnGaps, o.IgnNs)
+		case 1:
+			a.RemoveMajorityCharacterSites(2, o.Ends, o.IgnGaps, o.IgnNs) // cutoff outside [0,1] counts as 0 ...
+			a = h.MkAlign(rows, alphaOf(aa))                               // ... which may remove columns: start again
+			a.MaxCharStats(o.IgnGaps, o.IgnNs)
+			a.Consensus(o.IgnGaps, o.IgnNs)
+		default:
+			a.Consensus(o.IgnGaps, o.IgnNs)
+		}
+		pool := "ACGT-N"
+		if aa {
+			pool = "ARND-X"
+		}
+		how := "edited cells"
+		if r.Bool() {
+			// a few columns made (nearly) constant, others scrambled
+			for k := r.Range(1, 4); k > 0; k-- {
+				j := r.Intn(len(cols))
+				ch := pool[r.Intn(len(pool))]
+				for i := range rows {
+					if r.Chance(0.85) {
+						a.SetSequenceChar(i, j, ch)
+					}
+				}
+			}
+		} else {
+			how = "rows removed"
+			a.RemoveGapSeqs(r.PickF([]float64{0.25, 0.5, 0.125}), false)
+		}
+		if mid := h.Snap(a); len(mid) > 0 {
+			o.Cutoff = genCutoff(r, columns(seqsOf(mid)), aa, &o)
+			st = doSitesOn(c, a, mid, aa, o, false)
+			note("after-query-and-edit("+how+"):RemoveMajorityCharacterSites", o, st)
+			c.Count("query-edit-clean:" + how)
+		}
+	}
+
 	c.Input(map[string]interface{}{"alphabet": alphaName(aa), "rows": rows, "calls": ops})
 	if len(rows) > 0 && len(rows[0].Seq) == 0 {
 		c.Count("shape:zero-length-rows")
@@ -1123,6 +1167,8 @@ func main() {
 	mon.Floor("cli:sites", 100)
 	mon.Floor("cli:seqs", 50)
 	mon.Floor("cli-multi:ok", 40)
+	mon.Floor("query-edit-clean:edited cells", 1000)
+	mon.Floor("query-edit-clean:rows removed", 1000)
 	mon.Main("C12", []mon.Sub{
 		{Name: "witness", Quick: len(witnesses) + nEmptyWitness, Thorough: len(witnesses) + nEmptyWitness, Run: runWitness},
 		{Name: "exh-sites", Quick: nExhSites, Thorough: nExhSites, Run: runExhSites},
